@@ -102,8 +102,18 @@ def pb(s):
 _POOL = []
 
 
+_ADDR = bytearray()
+
+
 def reset_pool():
     del _POOL[:]
+    del _ADDR[:]
+
+
+def pooled_addr(b: bytes):
+    """the application's ONE address buffer, rewritten in place for every open_rx_pipe() / open_tx_pipe() call"""
+    _ADDR[:] = b
+    return _ADDR
 
 
 def parse_buf(s, k=0):
@@ -198,13 +208,13 @@ def rf24_call(d, toks):
         return "ok"
     m = t[0]
     if m == "open_tx_pipe":
-        d.open_tx_pipe(unhex(t[1]))
+        d.open_tx_pipe(pooled_addr(unhex(t[1])))
         return "ok"
     if m == "close_rx_pipe":
         d.close_rx_pipe(int(t[1]))
         return "ok"
     if m == "open_rx_pipe":
-        d.open_rx_pipe(int(t[1]), unhex(t[2]))
+        d.open_rx_pipe(int(t[1]), pooled_addr(unhex(t[2])))
         return "ok"
     if m == "available":
         return sb(d.available())
